@@ -136,7 +136,13 @@ def scenario(seed, n_threads, per_thread, partial, inbound, lines, limit, sizes)
             if not state["cea"]:
                 msgs, _rest = split_messages(sock.out)
                 if msgs:
-                    cer = DiameterMessage.load(msgs[0])[0]
+                    try:
+                        cer = DiameterMessage.load(msgs[0])[0]
+                    except BaseException as e:
+                        if isinstance(e, (KeyboardInterrupt, SystemExit)):
+                            raise
+                        state["garbled"] = msgs[0][:60].hex()      # what the node wrote first is not a decodable message
+                        return True
                     cea = CEA(origin_host="peer.h", origin_realm="peer.r", host_ip_address="127.0.0.2")
                     cea.header.hop_by_hop, cea.header.end_to_end = cer.header.hop_by_hop, cer.header.end_to_end
                     sock.inbox.append(cea.dump())
@@ -175,11 +181,13 @@ def scenario(seed, n_threads, per_thread, partial, inbound, lines, limit, sizes)
         TR.TcpConnection._set_selector_events_mask, TR.TcpConnection.write, TR.TcpConnection.read = orig_mask, orig_write, orig_read
         del TR.TcpConnection._out_pending
     return {"status": status, "out": sock.out, "accepted": accepted, "submitted": submitted, "log": log, "done": sorted(done), "idle": idle,
-            "excs": excs, "debug": debug, "schedule_len": len(s.choices), "steps": s.steps, "send_queue_id": id(a._send_messages) if a is not None else None}
+            "excs": excs, "debug": debug, "garbled": state.get("garbled"), "schedule_len": len(s.choices), "steps": s.steps, "send_queue_id": id(a._send_messages) if a is not None else None}
 
 
 def verdict(res, n_threads):
     """the statement on one run: the bytes on the socket are the accepted messages, each once, whole, per-submitter order"""
+    if res.get("garbled"):
+        return ("the first bytes the node wrote (its CER) are not a decodable message (torn or duplicated)", {"prefix": res["garbled"]})
     acc = list(res["accepted"])
     msgs, rest = split_messages(res["out"])
     if len(res["done"]) != n_threads:
